@@ -168,6 +168,25 @@ def run(ctx, rep):
         rep.instance(R1, ok=ok, nontrivial=('Quantified.substitute', pn, po))
         if not ok:
             rep.finding(R1, f'C15.R1/Quantified.substitute/{pn}-for-{po}', m.loc(LEX, fq), 'Quantified.substitute', f'gives {r!r}, expected {want!r}')
+    # the constructors the rebuilds go through: q(v, s), op(operands), pred(params) build exactly the item asked for, whatever the
+    # arguments are (a variable that no longer occurs after a substitution included)
+    for cname, built, cases in (('Quantifier', 'Quantified', ((('VAR', Obj('body', variables=frozenset({'VAR'}))), 'bound variable occurs'),
+                                                            (('VAR', Obj('body', variables=frozenset({'OTHER'}))), 'bound variable does not occur'),
+                                                            (('VAR', Obj('body', variables=frozenset())), 'closed body'))),
+                                ('Operator', 'Operated', (((Obj('s1'), Obj('s2')), 'two operands'), ((Obj('s1'),), 'one operand'))),
+                                ('Predicate', 'Predicated', ((('a', 'b'), 'two parameters'), (('x',), 'one parameter')))):
+        fc = m.func(LEX, f'{cname}.__call__')
+        rep.consult(m.loc(LEX, fc) + f' {cname}.__call__')
+        itcall = Interp({built: (lambda *a, built=built: (built, a)), 'Sentence': lambda x: x, 'Variable': lambda x: x, 'Constant': lambda x: x,
+                      'Parameter': lambda x: x}, where=f'lang/lex.py {cname}.__call__')
+        me = Obj(cname.lower())
+        for args, label in cases:
+            r = itcall.safe(fc, [me, *args])
+            ok = r == (built, (me, *args))
+            rep.instance(R1, ok=ok, nontrivial=(f'{cname}.__call__', label))
+            if not ok:
+                rep.finding(R1, f'C15.R1/{cname}.__call__/{label}', m.loc(LEX, fc), f'{cname}.__call__',
+                            f'{label}: gives {r!r}, expected {built}(self, *arguments) -- substitute / unquantify rebuild their result through this call')
     fu = m.func(LEX, 'Quantified.unquantify')
     r = it.safe(fu, [qs, 'k'])
     ok = r == ('SUB', 1, ('Constant', 'k'), 'VAR')
